@@ -149,6 +149,11 @@ def size_of(t) -> int:
 
 class C02(Prop):
     pid = "C02"
+    manifest = dict(
+        technique='Lean 4 theorems: truth tables, commutativity, absorption, and structural induction over ALL nestings of && || ! ?: all exists for both runners (interpreter model evI and transpiled-program denotation evC) against the Kleene specification; logical_* regenerated from celtypes.py + bridge; differential correspondence on rendered CEL',
+        text="proof: both runners equal the three-valued error-absorbing specification on every logical expression tree (any depth, any list length); logical_and/or/not/condition and result()'s caught classes are regenerated from the source on every run",
+        note='Lean kernel; standard axioms; py2lean; evaluator control flow hand-modelled and tied by correspondence; lark',
+        ref='DESIGN.md §5 C02')
     lean_targets = ["Cel.Props.C02", "Cel.Bridge.Logic"]
     audit_namespaces = ["Cel.Props.C02", "Cel.Bridge"]
     gen_names = ["Logic"]
